@@ -28,6 +28,7 @@ from .core import (callee_path, callee_of, strip_refs, strip_payload, edge_domin
 from .engine import Inconclusive, VERIF
 from . import table as T
 from . import panic as PN
+from . import x_ipaths
 from .dispatch import Dispatcher, VALUE
 
 INF = float("inf")
@@ -179,6 +180,192 @@ def interval_of(pred, num, subject):
     }[op]
 
 
+class Unread(Exception):
+    """The arity predicate has a form the path reader cannot interpret."""
+
+
+WIDE = ("usize", "u64", "u128", "i128")
+
+
+def _merge_iv(ivs):
+    out = []
+    for lo, hi in sorted(ivs):
+        if lo > hi:
+            continue
+        if out and lo <= out[-1][1] + 1:
+            out[-1] = (out[-1][0], max(out[-1][1], hi))
+        else:
+            out.append((lo, hi))
+    return out
+
+
+def _meet_iv(a, b):
+    return _merge_iv([(max(l1, l2), min(h1, h2)) for (l1, h1) in a for (l2, h2) in b])
+
+
+def _not_iv(a):
+    out, cur = [], 0
+    for lo, hi in _merge_iv(a):
+        if lo > cur:
+            out.append((cur, lo - 1))
+        cur = hi + 1
+    if cur != INF + 1 and cur < INF:
+        out.append((cur, INF))
+    return out
+
+
+ALL = [(0, INF)]
+
+
+class ArityReader:
+    """The accepted operand counts of one descriptor value, read from the path summaries of the predicate function
+    (rules/x_ipaths.py: helpers such as a bounds table expanded) with the descriptor's variant fixed: every path gives
+    a conjunction of questions about LEN and a result; the accepted set is the union over the paths.  Comparison
+    ladders, `matches!`, range `contains`, (Bound, Bound) tables and early returns are the same table here."""
+
+    def __init__(self, facts, fn_key, adt, len_arg):
+        self.facts, self.adt, self.len_arg = facts, adt, len_arg
+        self.b = facts.body(fn_key)
+        self._w = {}
+
+    def walker(self, variant):
+        if variant not in self._w:
+            adt = self.adt
+            w = x_ipaths.summarize(self.b, x_ipaths.loop_free_local(self.facts), max_paths=400,
+                                   known=lambda pe, a: variant if (a == adt and strip_refs(pe) == ("arg", 1)) else None)
+            if w.overflow or not w.paths or any(p.truncated for p in w.paths):
+                raise Unread("the arity predicate %s has loops or too many paths" % self.b.key)
+            self._w[variant] = w
+        return self._w[variant]
+
+    # ---- values -------------------------------------------------------------------------------------------
+    def value(self, x, num):
+        x = strip_refs(x)
+        if x[0] == "cast" and len(x) > 3:
+            inner = self.value(x[2], num)
+            if inner == ("LEN",) and x[3] not in WIDE:
+                raise NarrowedLength(x[3])
+            return inner
+        if self.len_arg is not None and x == ("arg", self.len_arg):
+            return ("LEN",)
+        if x[0] == "const":
+            v = const_value(x[1])
+            if isinstance(v, int) and not isinstance(v, bool):
+                return v
+        if x[0] == "field":
+            base = strip_refs(x[1])
+            if base[0] == "downcast" and base[2] == num[0] and strip_refs(base[1]) == ("arg", 1):
+                if num[0] == "Variadic" and len(num) == 3 and x[2] == 0 and self._payload_is_range(num):
+                    return ("bounds", ("Included", num[1]), ("Excluded", num[2]))
+                if x[2] + 1 < len(num):
+                    return num[1 + x[2]]
+            if base[0] == "field":
+                inner = self.value(base, num)
+                if isinstance(inner, tuple) and inner[0] == "bounds":      # Range { start, end }
+                    b_ = inner[1 + x[2]] if x[2] in (0, 1) else None
+                    if b_ and b_[0] != "Unbounded":
+                        return b_[1]
+        if x[0] == "agg":
+            var, ops = x[1].get("variant"), x[2]
+            adt = x[1].get("adt") or ""
+            if var in ("Included", "Excluded", "Unbounded") and "Bound" in adt:
+                if var == "Unbounded":
+                    return ("Unbounded",)
+                v = self.value(ops[0], num)
+                if isinstance(v, int):
+                    return (var, v)
+            if x[1].get("agg") == "Tuple" and len(ops) == 2:
+                a, b_ = self.value(ops[0], num), self.value(ops[1], num)
+                if all(isinstance(t, tuple) and t[0] in ("Included", "Excluded", "Unbounded") for t in (a, b_)):
+                    return ("bounds", a, b_)
+            if "ops::Range" in adt or "range::Range" in adt:
+                vs = [self.value(o, num) for o in ops]
+                if all(isinstance(v, int) for v in vs):
+                    nm = adt.rsplit("::", 1)[-1].split("<")[0]
+                    if nm == "Range" and len(vs) == 2:
+                        return ("bounds", ("Included", vs[0]), ("Excluded", vs[1]))
+                    if nm == "RangeFrom" and len(vs) == 1:
+                        return ("bounds", ("Included", vs[0]), ("Unbounded",))
+                    if nm == "RangeTo" and len(vs) == 1:
+                        return ("bounds", ("Unbounded",), ("Excluded", vs[0]))
+                    if nm == "RangeToInclusive" and len(vs) == 1:
+                        return ("bounds", ("Unbounded",), ("Included", vs[0]))
+        if x[0] == "call" and x[1] and re.search(r"RangeInclusive::<Idx>::new$", x[1]["path"]) and len(x[2]) == 2:
+            vs = [self.value(o, num) for o in x[2]]
+            if all(isinstance(v, int) for v in vs):
+                return ("bounds", ("Included", vs[0]), ("Included", vs[1]))
+        raise Unread("operand of the arity predicate not understood: %s" % show_expr(x)[:100])
+
+    def _payload_is_range(self, num):
+        for v in self.facts.adts.get(self.adt, {}).get("variants", []):
+            if v["name"] == num[0]:
+                return len(v.get("fields", [])) == 1
+        return True
+
+    # ---- questions ----------------------------------------------------------------------------------------
+    def holds(self, x, truth, num):
+        """{LEN | (x == truth)} as intervals."""
+        x = strip_refs(x)
+        while x[0] == "unop" and x[1] == "Not":
+            truth, x = not truth, strip_refs(x[2])
+        if x[0] == "const" and isinstance(const_value(x[1]), bool):
+            return ALL if const_value(x[1]) == truth else []
+        op = a = b_ = None
+        if x[0] == "binop" and x[1] in FLIP:
+            op, a, b_ = x[1], x[2], x[3]
+        elif x[0] == "call" and x[1]:
+            p = x[1]["path"]
+            if p.endswith("::contains") and ("Range" in p or "Bound" in p) and len(x[2]) == 2:
+                r, item = self.value(x[2][0], num), self.value(x[2][1], num)
+                if not (isinstance(r, tuple) and r[0] == "bounds"):
+                    raise Unread("containment in something that is not a range: %s" % show_expr(x)[:100])
+                lo = 0 if r[1][0] == "Unbounded" else (r[1][1] if r[1][0] == "Included" else r[1][1] + 1)
+                hi = INF if r[2][0] == "Unbounded" else (r[2][1] if r[2][0] == "Included" else r[2][1] - 1)
+                if item == ("LEN",):
+                    iv = _merge_iv([(lo, hi)])
+                elif isinstance(item, int):
+                    iv = ALL if lo <= item <= hi else []
+                else:
+                    raise Unread("containment of an unknown subject")
+                return iv if truth else _not_iv(iv)
+            op = _cmp_of_call(p)
+            if op and len(x[2]) == 2:
+                a, b_ = x[2][0], x[2][1]
+            else:
+                op = None
+        if op is None:
+            raise Unread("question of the arity predicate not understood: %s" % show_expr(x)[:100])
+        va, vb = self.value(a, num), self.value(b_, num)
+        if vb == ("LEN",) and va != ("LEN",):
+            va, vb, op = vb, va, FLIP[op]
+        if va == ("LEN",) and isinstance(vb, int):
+            c = vb
+            iv = {"Eq": [(c, c)], "Ne": _not_iv([(c, c)]), "Ge": [(c, INF)], "Gt": [(c + 1, INF)], "Le": [(0, c)], "Lt": [(0, c - 1)] if c > 0 else []}[op]
+            iv = _merge_iv(iv)
+            return iv if truth else _not_iv(iv)
+        if isinstance(va, int) and isinstance(vb, int):
+            t = {"Eq": va == vb, "Ne": va != vb, "Ge": va >= vb, "Gt": va > vb, "Le": va <= vb, "Lt": va < vb}[op]
+            return ALL if t == truth else []
+        raise Unread("comparison of the arity predicate not understood: %s" % show_expr(x)[:100])
+
+    def accepted(self, num):
+        """Union over the paths for descriptor `num` of (questions on the path ∧ result is true)."""
+        w = self.walker(num[0])
+        out = []
+        for p in w.paths:
+            iv = ALL
+            for key, val0 in p.order:
+                val = p.atoms.get(key, val0)
+                rw = w.raw.get((key, val)) or w.raw.get((key, val0))
+                if key[0] == "variant" or rw is None or key[0] == "int":
+                    raise Unread("the arity predicate asks something that is not a comparison: %s" % (show_expr(w.exprs[key])[:80] if key in w.exprs else key[0]))
+                iv = _meet_iv(iv, self.holds(rw[0], rw[1], num))
+            if iv:
+                iv = _meet_iv(iv, self.holds(p.result, True, num))
+            out.extend(iv)
+        return _merge_iv(out)
+
+
 def find_roles(facts, tables, disp):
     desc_adt = None
     for e in T.all_entries(tables):
@@ -191,20 +378,39 @@ def find_roles(facts, tables, disp):
         raise Inconclusive("arity descriptor enum not identified")
     desc_adt = cands[0]
     roles = {"adt": desc_adt}
-    for bi, t in disp.body.calls():
-        c = callee_of(t)
-        if not c or not c["local"]:
+    # the unary-acceptance predicate and the length check, identified by signature among the functions called by the
+    # dispatcher or by the private helpers it reaches (without going through the tables); `bi` is the call's block when
+    # the call sits in the dispatcher itself, else None
+    seen, todo = set(), [disp.body.key]
+    table_fns = {e.fn_key for e in T.all_entries(tables)}
+    while todo:
+        k = todo.pop()
+        if k in seen:
             continue
-        it = facts.items.get(c["key"])
-        if not it or not it.get("inputs"):
+        seen.add(k)
+        hb = facts.body(k)
+        if hb is None:
             continue
-        if it["inputs"][0].endswith(desc_adt) and it["inputs"][0].startswith("&"):
-            if it["output"] == "bool" and len(it["inputs"]) == 1:
-                roles["unary"] = (c["key"], bi)
-            elif len(it["inputs"]) == 2 and it["output"].startswith("std::result::Result<"):
-                roles["check"] = (c["key"], bi)
+        for bi, t in hb.calls():
+            c = callee_of(t)
+            if not c or not c["local"]:
+                continue
+            it = facts.items.get(c["key"])
+            if it and it.get("inputs") and it["inputs"][0].endswith(desc_adt) and (it["inputs"][0].startswith("&") or it["inputs"][0] == desc_adt):
+                here = bi if k == disp.body.key else None
+                if it["output"] == "bool" and len(it["inputs"]) == 1:
+                    if "unary" not in roles or (here is not None and roles["unary"][1] is None):
+                        roles["unary"] = (c["key"], here)
+                    continue
+                if len(it["inputs"]) == 2 and it["output"].startswith("std::result::Result<"):
+                    if "check" not in roles or (here is not None and roles["check"][1] is None):
+                        roles["check"] = (c["key"], here)
+                    continue
+            cb_ = facts.body(c["key"])
+            if cb_ is not None and cb_.kind == "fn" and c["key"] not in table_fns and len(seen) < 40 and not (it or {}).get("exported"):
+                todo.append(c["key"])
     if "unary" not in roles or "check" not in roles:
-        raise Inconclusive("length-check / unary-acceptance calls not found in the dispatcher")
+        raise Inconclusive("length-check / unary-acceptance calls not found in the dispatcher or its helpers")
     chk = facts.body(roles["check"][0])
     for bi, t in chk.calls():
         c = callee_of(t)
@@ -247,26 +453,32 @@ def run(ctx):
         adt = roles["adt"]
         entries = T.all_entries(tables)
         ctx.floor("table entries (%s)" % cfg, len(entries), 35)
-        # ---- K1: descriptor semantics → accepted sets vs documentation
-        try:
-            vpred = variant_predicates(facts, roles["valid"][0], adt, True)
-        except NarrowedLength as nl:
-            vb = facts.body(roles["valid"][0])
-            ctx.fail("K1.length-narrowed", "length predicate (%s)" % cfg, "the operand count is converted to %s before it is compared with the descriptor: counts are checked modulo 2^bits, so surplus operands are accepted and valid long lists rejected" % nl, where=vb.where(), fn=vb.key)
-            continue
-        upred = variant_predicates(facts, roles["unary"][0], adt, False)
-        ctx.floor("descriptor variants (%s)" % cfg, len(vpred), 6)
+        # ---- K1: descriptor semantics → accepted sets vs documentation (path summaries per descriptor variant)
+        vread = ArityReader(facts, roles["valid"][0], adt, 2)
+        uread = ArityReader(facts, roles["unary"][0], adt, None)
+        vb = facts.body(roles["valid"][0])
+        ctx.floor("descriptor variants (%s)" % cfg, len(facts.variants(adt)), 6)
+        narrowed = False
         for e in entries:
-            iv = interval_of(vpred[e.num[0]], e.num, "LEN")
             s = spec.get(e.key)
             if s is None:
                 ctx.fail("K1.accepted", "%s" % e.key, "operator %r is not one of the documented operators" % e.key, facts.body(e.table.const_key).where())
                 continue
             want = [(s["min"], INF if s["max"] is None else s["max"])]
-            ctx.check(iv == want, "K1.accepted", e.key,
-                      "operator %r accepts %s operands (descriptor %s, predicate %s) but the documented set is %s" % (e.key, fmt_iv(iv), e.num, vpred[e.num[0]], fmt_iv(want)),
-                      where=facts.body(e.table.const_key).where(), nontrivial=e.num[0] in ("AtLeast", "Exactly", "Variadic"),
-                      sample={"operator": e.key, "descriptor": list(e.num), "predicate": repr(vpred[e.num[0]]), "accepted": fmt_iv(iv), "documented": fmt_iv(want)}, fn=e.table.const_key)
+            iv = None
+            try:
+                iv = vread.accepted(e.num)
+            except NarrowedLength as nl:
+                if not narrowed:
+                    ctx.fail("K1.length-narrowed", "length predicate (%s)" % cfg, "the operand count is converted to %s before it is compared with the descriptor: counts are checked modulo 2^bits, so surplus operands are accepted and valid long lists rejected" % nl, where=vb.where(), fn=vb.key)
+                narrowed = True
+            except Unread as u:
+                ctx.unread("K1.accepted", e.key, "the accepted operand counts of descriptor %s cannot be read: %s" % (e.num, u), where=vb.where(), fn=vb.key)
+            if iv is not None:
+                ctx.check(iv == want, "K1.accepted", e.key,
+                          "operator %r accepts %s operands (descriptor %s) but the documented set is %s" % (e.key, fmt_iv(iv), e.num, fmt_iv(want)),
+                          where=facts.body(e.table.const_key).where(), nontrivial=e.num[0] in ("AtLeast", "Exactly", "Variadic"),
+                          sample={"operator": e.key, "descriptor": list(e.num), "accepted": fmt_iv(iv), "documented": fmt_iv(want)}, fn=e.table.const_key)
             # an operator whose operands are all evaluated (eager / data discipline) has them all *parsed* with the operation:
             # a malformed operation anywhere among its operands is rejected whatever the data.  Moved to the lazy table,
             # the operator decides itself what gets parsed, and wrong operand counts in the parts it skips go unnoticed.
@@ -275,200 +487,24 @@ def run(ctx):
                           "operator %r is documented to evaluate all its operands but sits in the %s table: its operands are no longer all parsed (and length-checked) together with the operation" % (e.key, e.table.role),
                           where=facts.body(e.table.const_key).where(), fn=e.table.const_key)
             # ---- K2
-            uiv = interval_of(upred[e.num[0]], e.num, 1)
+            if iv is None:
+                continue
+            try:
+                uiv = uread.accepted(e.num)
+            except (Unread, NarrowedLength) as u:
+                ctx.unread("K2.unary", e.key, "the unary-acceptance predicate cannot be read for descriptor %s: %s" % (e.num, u), where=facts.body(roles["unary"][0]).where(), fn=roles["unary"][0])
+                continue
             unary_code = bool(uiv)
             unary_sem = any(lo <= 1 <= hi for lo, hi in iv)
             ctx.check(unary_code == unary_sem, "K2.unary", e.key,
-                      "unbracketed operand %s by the unary predicate (%s) but one operand is %s by the length predicate" % ("accepted" if unary_code else "rejected", upred[e.num[0]], "accepted" if unary_sem else "rejected"),
+                      "unbracketed operand %s by the unary predicate but one operand is %s by the length predicate" % ("accepted" if unary_code else "rejected", "accepted" if unary_sem else "rejected"),
                       where=facts.body(roles["unary"][0]).where(), nontrivial=e.num[0] in ("AtLeast", "Exactly", "Variadic"), fn=roles["unary"][0])
+        if narrowed:
+            continue
         missing = sorted(set(spec) - {e.key for e in entries})
         ctx.check(not missing, "K1.complete", "all documented operators bound (%s)" % cfg, "documented operators missing from the tables: %s" % missing, where=facts.body(tables[0].const_key).where())
 
-        # ---- K3: dominance of the length check
-        b = disp.body
-        chk_key, chk_bi = roles["check"]
-        chk_term = b.blocks[chk_bi]["term"]
-        len_expr = strip_refs(b.trace(chk_term["args"][1]))
-        ok_len = len_expr[0] == "call" and len_expr[1] and len_expr[1]["path"] == "std::vec::Vec::<T, A>::len"
-        vec_of_len = strip_refs(len_expr[2][0]) if ok_len else None
-        # success edge of the check
-        succ_edges = []
-        for bi in b.reachable():
-            t = b.blocks[bi]["term"]
-            if t["k"] != "SwitchInt":
-                continue
-            e = b.trace(t["discr"])
-            if e[0] != "discr":
-                continue
-            x = strip_refs(e[1])
-            var = None
-            if x[0] == "call" and x[1] and x[1]["path"].endswith("as std::ops::Try>::branch"):
-                inner = strip_refs(x[2][0])
-                var = "Continue"
-            else:
-                inner = x
-                var = "Ok"
-            if inner[0] == "call" and inner[1] and inner[1].get("key") == chk_key:
-                r = switch_edges_for_variant(b, bi, var)
-                if r and r[1]:
-                    succ_edges.append((bi, r[0]))
-        ctx.need(succ_edges, "success edge of the length check not found in the dispatcher")
-        for (sbi, ssi, inner) in disp.success:
-            dom = any(edge_dominates(b, u, v, sbi) for u, v in succ_edges)
-            ctx.check(dom, "K3.dominated", "Ok(Some) exit in %s" % cfg,
-                      "a parsed operation is returned on a path that does not pass the success edge of the length check",
-                      where=b.where(sbi, ssi), nontrivial=True, fn=b.key,
-                      sample={"exit_block": sbi, "check_edges": succ_edges})
-            # the returned vector is the vector whose length was checked
-            payload = inner[2][0] if inner[2] else None
-            fields = payload[2] if payload and payload[0] == "agg" else []
-            same = any(strip_refs(f) == vec_of_len for f in fields)
-            ctx.check(ok_len and same, "K3.same-vector", "checked length is that of the returned operands (%s)" % cfg,
-                      "the length handed to the length check (%s) is not the length of the returned operand vector" % show_expr(len_expr),
-                      where=b.where(chk_bi), nontrivial=True, fn=b.key)
-        # the check itself: Err exactly when the predicate is false
-        cb = facts.body(chk_key)
-        vkey, vbi = roles["valid"]
-        vt = cb.blocks[vbi]["term"]
-        args_ok = [strip_refs(cb.trace(a)) for a in vt["args"]] == [("arg", 1), ("arg", 2)]
-        ctx.check(args_ok, "K3.check-args", "length check forwards (descriptor, length) (%s)" % cfg,
-                  "the length check does not pass its own descriptor and length to the predicate", where=cb.where(vbi), fn=cb.key)
-        sw = [bi for bi in cb.reachable() if cb.blocks[bi]["term"]["k"] == "SwitchInt" and strip_refs(cb.trace(cb.blocks[bi]["term"]["discr"]))[0] == "call" and strip_refs(cb.trace(cb.blocks[bi]["term"]["discr"]))[1].get("key") == vkey]
-        ctx.need(len(sw) == 1, "length check does not branch exactly once on the predicate")
-        for want, variant in ((True, "Ok"), (False, "Err")):
-            tgt = bool_edge(cb, sw[0], want)
-            blocks = cb.reachable(tgt)
-            with cb.restricted(blocks):
-                r = cb.trace(0)
-            good = r[0] == "agg" and r[1].get("variant") == variant
-            ctx.check(good, "K3.check-%s" % variant, "predicate %s → %s (%s)" % (want, variant, cfg),
-                      "when the length predicate is %s the length check returns %s instead of %s" % (want, show_expr(r), variant),
-                      where=cb.where(sw[0]), nontrivial=True, fn=cb.key)
-
-        # ---- K4: unbracketed operand
-        # the operand: the Value (≠ the dispatcher's own value parameter) whose kind is switched on
-        op_sw = []
-        for bi in b.reachable():
-            t = b.blocks[bi]["term"]
-            if t["k"] != "SwitchInt":
-                continue
-            e = b.trace(t["discr"])
-            if e[0] == "discr" and e[2] == VALUE and strip_refs(e[1]) != ("arg", disp.value_arg):
-                op_sw.append((bi, strip_refs(e[1])))
-        ctx.need(len(op_sw) == 1, "the dispatcher does not switch exactly once on the kind of the operand")
-        obi, operand = op_sw[0]
-        src = strip_payload(operand)
-        from_obj = src[0] == "call" and src[1] and src[1]["path"].startswith("serde_json::Map::<") and src[1]["path"].endswith("::get") and disp._is_object_payload(src[2][0])
-        key_same = from_obj and strip_payload(src[2][1]) == strip_payload(disp.lookup_key_expr())
-        ctx.check(from_obj and key_same, "K4.operand", "operand is the object's value under the dispatched key (%s)" % cfg,
-                  "the operand is not obtained as object[key] for the dispatched key: %s" % show_expr(src), where=b.where(obi), fn=b.key)
-        arr = switch_edges_for_variant(b, obi, "Array")
-        ctx.need(arr and arr[1], "no exact Array edge on the operand")
-        # definitions of the operand vector
-        defs = None
-        if vec_of_len and vec_of_len[0] == "phi":
-            defs = list(b.defs()[vec_of_len[1]])
-        elif vec_of_len and vec_of_len[0] == "field" and strip_refs(vec_of_len[1])[0] == "phi":
-            # the vector travels as one field of a tuple joined over the two forms: `let (args, flag) = match …`
-            tl, idx = strip_refs(vec_of_len[1])[1], vec_of_len[2]
-            defs = []
-            for d in b.defs()[tl]:
-                inner = None
-                if d[0] == "stmt" and d[3]["k"] == "Aggregate" and len(d[3]["ops"]) > idx:
-                    o = d[3]["ops"][idx]
-                    if o["k"] in ("Copy", "Move") and not o["place"]["proj"]:
-                        dd = b.defs().get(o["place"]["local"], [])
-                        if len(dd) == 1:
-                            inner = dd[0]
-                if inner is None:
-                    defs = None
-                    break
-                defs.append(inner)
-        built_in_place = None
-        if defs is None and vec_of_len and vec_of_len[0] == "call" and vec_of_len[1] and re.search(r"Vec::<T>::(new|with_capacity)$", vec_of_len[1]["path"]):
-            # `let mut args = Vec::new(); if array { args.extend(items) } else if unary { args.push(x) } else { return Err }`:
-            # the list is what the mutations put into it
-            vl = b.blocks[vec_of_len[3]]["term"]["dest"]["local"]
-            muts = []
-            for mbi, mt in b.calls():
-                mp = callee_path(mt) or ""
-                if not mt["args"]:
-                    continue
-                tgt0 = strip_refs(b.trace(mt["args"][0]))
-                if not (tgt0[0] == "call" and len(tgt0) > 3 and tgt0[3] == vec_of_len[3]):
-                    continue
-                if re.search(r"Vec::<T, A>::(len|is_empty|capacity|iter|as_slice|first|last|get)$|Deref>::deref$", mp):
-                    continue
-                muts.append((mbi, mt, mp))
-            built_in_place = muts
-        if built_in_place is None:
-            ctx.need(defs is not None, "operand vector is not a two-way join (bracketed / unbracketed forms)")
-        ubi = roles["unary"][1]
-        usw = [bi for bi in b.reachable() if b.blocks[bi]["term"]["k"] == "SwitchInt" and strip_refs(b.trace(b.blocks[bi]["term"]["discr"]))[0] == "call" and strip_refs(b.trace(b.blocks[bi]["term"]["discr"]))[1].get("key") == roles["unary"][0]]
-        ctx.need(len(usw) == 1, "dispatcher does not branch exactly once on unary acceptance")
-        t_edge = (usw[0], bool_edge(b, usw[0], True))
-        f_tgt = bool_edge(b, usw[0], False)
-        seen_forms = set()
-        for n, (mbi, mt, mp) in enumerate(built_in_place or []):
-            if re.search(r"Vec::<T, A>::push$", mp) and len(mt["args"]) == 2 and strip_refs(b.trace(mt["args"][1])) == operand:
-                under = edge_dominates(b, t_edge[0], t_edge[1], mbi)
-                ctx.check(under, "K4.unary-guard", "unbracketed form only under unary acceptance (%s)" % cfg, "a non-array operand is pushed as the single operand without the unary-acceptance test", where=b.where(mbi), fn=b.key, nontrivial=True)
-                # pushed once: not inside a loop
-                ctx.check(not any(mbi in blocks for (_h, blocks, _s) in PN.loops_of(b)), "K4.wrap", "unbracketed operand x becomes exactly [x] (%s)" % cfg, "the operand is pushed inside a loop", where=b.where(mbi), fn=b.key, nontrivial=True)
-                seen_forms.add("unbracketed")
-                continue
-            if re.search(r"Vec::<T, A>::(extend|extend_from_slice)$|as std::iter::Extend<.*>>::extend$", mp) and len(mt["args"]) == 2:
-                src_ = strip_refs(b.trace(mt["args"][1]))
-                while src_[0] == "call" and src_[1] and re.search(r"(::iter|::into_iter|IntoIterator>::into_iter|Deref>::deref|::as_slice)$", src_[1]["path"]) and src_[2]:
-                    src_ = strip_refs(src_[2][0])
-                if src_[0] == "field" and src_[1][0] == "downcast" and src_[1][2] == "Array" and strip_refs(src_[1][1]) == operand:
-                    under = edge_dominates(b, obi, arr[0], mbi)
-                    ctx.check(under, "K4.bracketed", "bracketed form = the array's elements in order (%s)" % cfg, "the array's elements are used as operands on a path where the operand is not known to be an array", where=b.where(mbi), fn=b.key, nontrivial=True)
-                    seen_forms.add("bracketed")
-                    continue
-            ctx.fail("K4.other-form", "operand list mutation #%d (%s)" % (n, cfg), "{op: x} must mean exactly {op: [x]}: the operand list is also modified by %s" % mp, where=b.where(mbi), fn=b.key)
-        if built_in_place is not None:
-            npush = sum(1 for (_b, mt_, mp_) in built_in_place if re.search(r"Vec::<T, A>::push$", mp_))
-            next_ = sum(1 for (_b, mt_, mp_) in built_in_place if re.search(r"(extend|extend_from_slice)$", mp_))
-            ctx.check(npush <= 1 and next_ <= 1, "K4.wrap", "the operand list is filled at one site per form (%s)" % cfg, "the operand list is pushed to at %d sites and extended at %d: {op: x} would not be exactly {op: [x]}" % (npush, next_), where=b.where(obi), fn=b.key, nontrivial=True)
-        for n, d in enumerate(defs or []):
-            dbi = d[1]
-            if dbi not in b.reachable():
-                continue
-            ex = b._trace_def(d, 0, frozenset())
-            x = strip_refs(ex)
-            # form 1: bracketed — collect(iter(array payload of the operand))
-            is_collect = x[0] == "call" and x[1] and x[1]["path"].endswith("::collect")
-            it = strip_refs(x[2][0]) if is_collect else None
-            is_br = bool(is_collect and it[0] == "call" and it[1] and it[1]["path"] == "core::slice::<impl [T]>::iter")
-            base = strip_refs(it[2][0]) if is_br else None
-            is_br = bool(is_br and base[0] == "field" and base[1][0] == "downcast" and base[1][2] == "Array" and strip_refs(base[1][1]) == operand)
-            elems = vec_macro_elems(b, d)
-            if is_br:
-                under = edge_dominates(b, obi, arr[0], dbi)
-                ctx.check(under, "K4.bracketed", "bracketed form = the array's elements in order (%s)" % cfg,
-                          "the array's elements are used as operands on a path where the operand is not known to be an array", where=b.where(dbi), fn=b.key, nontrivial=True)
-                seen_forms.add("bracketed")
-            elif elems is not None and len(elems) == 1 and strip_refs(elems[0]) == operand:
-                under = edge_dominates(b, t_edge[0], t_edge[1], dbi)
-                ctx.check(under, "K4.unary-guard", "unbracketed form only under unary acceptance (%s)" % cfg,
-                          "a non-array operand is wrapped without the unary-acceptance test", where=b.where(dbi), fn=b.key, nontrivial=True)
-                ctx.ok("K4.wrap", "unbracketed operand x becomes exactly [x] (%s)" % cfg, nontrivial=True, sample={"vector": [show_expr(e) for e in elems]})
-                seen_forms.add("unbracketed")
-            else:
-                what = ("a vector of %d element(s): %s" % (len(elems), [show_expr(e) for e in elems])) if elems is not None else show_expr(ex)
-                ctx.fail("K4.other-form", "operand list #%d formed neither as [x] nor as the array's elements (%s)" % (n, cfg),
-                         "{op: x} must mean exactly {op: [x]}: the operand list is also built as %s" % what, where=b.where(dbi), fn=b.key)
-        ctx.check({"bracketed", "unbracketed"} <= seen_forms, "K4.forms", "both operand forms present (%s)" % cfg, "operand forms found: %s" % sorted(seen_forms), where=b.where(obi), fn=b.key)
-        # rejection edge returns Err
-        blocks = b.reachable(f_tgt) - b.reachable(t_edge[1])
-        with b.restricted(blocks):
-            r = b.trace(0)
-        is_err = r[0] == "agg" and r[1].get("variant") == "Err"
-        if not is_err and r[0] == "call" and r[1] and r[1]["local"]:
-            cb2 = facts.body(r[1]["key"])
-            rr = cb2.trace(0) if cb2 else ("?",)
-            is_err = rr[0] == "agg" and rr[1].get("variant") == "Err"
+        k34(ctx, facts, disp, roles, cfg)
         k5_error_discipline(ctx, facts, disp, cfg)
         # K7: at evaluation time the operator receives the very list that was formed and counted here
         from .roles import Roles as _Roles
@@ -477,9 +513,512 @@ def run(ctx):
         for _t in _r.tables:
             operator_receives_operand_list(ctx, facts, _r, _t, cfg, "K7")
         k6_only_through_the_tables(ctx, facts, tables, cfg)
-        ctx.check(is_err, "K4.reject", "non-array operand of a non-unary operator is an error (%s)" % cfg,
-                  "the rejection edge returns %s" % show_expr(r), where=b.where(usw[0]), fn=b.key)
 
+
+
+class Recorder:
+    """Collects the outcome of a reading without reporting it, so that two sufficient readings of one clause group can
+    be tried and one of them reported."""
+    def __init__(self):
+        self.calls = []
+        self.bad = 0
+
+    def ok(self, *a, **k):
+        self.calls.append(("ok", a, k))
+
+    def fail(self, *a, **k):
+        self.bad += 1
+        self.calls.append(("fail", a, k))
+
+    def unread(self, *a, **k):
+        self.bad += 1
+        self.calls.append(("unread", a, k))
+
+    def check(self, cond, *a, **k):
+        if not cond:
+            self.bad += 1
+        self.calls.append(("check", (cond,) + a, k))
+
+    def need(self, cond, reason):
+        if not cond:
+            raise Inconclusive(reason)
+
+    def count(self, *a, **k):
+        self.calls.append(("count", a, k))
+
+    def floor(self, *a, **k):
+        self.calls.append(("floor", a, k))
+
+    def replay(self, ctx):
+        for m, a, k in self.calls:
+            getattr(ctx, m)(*a, **k)
+
+
+def k34(ctx, facts, disp, roles, cfg):
+    """K3 (the success exit lies behind the length check of the returned list) and K4 (the two operand forms) have two
+    sufficient readings: the statement structure of the dispatcher (`k34_structural`) and the path reading
+    (`k34_paths`, helpers expanded — does not care in which function the forms are built).  Either one holding
+    establishes the clauses; when neither does, the violations of the reading that could be applied are reported."""
+    r1 = Recorder()
+    try:
+        if os.environ.get("JL_K34_PATHS") == "1":       # development aid: the path reading alone
+            raise Inconclusive("structural reading switched off")
+        k34_structural(r1, facts, disp, roles, cfg)
+    except Inconclusive as e:
+        r1 = None
+    if r1 is not None and not r1.bad:
+        r1.replay(ctx)
+        return
+    r2 = Recorder()
+    k34_paths(r2, facts, disp, roles, cfg)
+    if not r2.bad:
+        r2.replay(ctx)
+        return
+    if r1 is not None and any(m == "fail" or (m == "check" and not a[0]) for m, a, k in r1.calls) and not any(m == "fail" or (m == "check" and not a[0]) for m, a, k in r2.calls):
+        r1.replay(ctx)      # the path reading is undecided, the structural one read a violation
+        return
+    r2.replay(ctx)
+
+
+VEC_PLUMB = re.compile(r"(::collect|::iter|::into_iter|::to_vec|::from_iter|::copied|::cloned|Deref>::deref|::as_slice|::as_ref|Vec::<T>::from|From<.*>>::from)$")
+
+
+def k34_paths(ctx, facts, disp, roles, cfg):
+    from .dispatch import GuardReader, PHF_GET
+    from . import pathsum
+    b = disp.body
+    unary_key, chk_key = roles["unary"][0], roles["check"][0]
+    rd = GuardReader(disp, skip={unary_key, chk_key})
+    w = rd.w
+    where = b.where(disp.success[0][0], disp.success[0][1]) if disp.success else b.where()
+    if not rd.readable or rd.truncated_success or not rd.success:
+        for cl in ("K3.dominated", "K4.forms"):
+            ctx.unread(cl, "paths of the dispatcher (%s)" % cfg, "the dispatcher's paths cannot be enumerated (loops / too many paths)", where=where, fn=b.key)
+        return
+
+    def outcome(p, call):
+        """Ok / Err of the Result-valued local call `call` on path p, else None."""
+        k = ("variant", pathsum.canon(strip_refs(call)))
+        v = p.atoms.get(k)
+        if v in ("Ok", "Err"):
+            return v
+        for key, val0 in p.order:
+            rw = w.raw.get((key, p.atoms.get(key, val0))) or w.raw.get((key, val0))
+            if rw and rw[0][0] == "call" and rw[0][1] and rw[0][2] and strip_refs(rw[0][2][0])[:4] == strip_refs(call)[:4]:
+                pth = rw[0][1]["path"]
+                if pth.endswith("::is_ok"):
+                    return "Ok" if rw[1] else "Err"
+                if pth.endswith("::is_err"):
+                    return "Err" if rw[1] else "Ok"
+        return None
+
+    def consumed(p, ev):
+        """the result of call event ev is looked at somewhere on p (an atom, a later call's argument, the result)."""
+        def same(x):
+            return x[0] == "call" and len(x) > 3 and x[1] is not None and x[1].get("key") == ev[1].get("key") and x[3] == ev[3]
+        if p.result is not None and expr_mentions(p.result, same):
+            return True
+        for key in p.atoms:
+            e = w.exprs.get(key)
+            if e is not None and expr_mentions(e, same):
+                return True
+            for val in (p.atoms[key],):
+                rw = w.raw.get((key, val))
+                if rw and expr_mentions(rw[0], same):
+                    return True
+        for ev2 in p.events:
+            if ev2 is not ev and any(isinstance(a, tuple) and expr_mentions(a, same) for a in ev2[2]):
+                return True
+        return False
+
+    def unary_on(p):
+        """truth of the unary-acceptance call on p (None: not asked)."""
+        for key, val0 in p.order:
+            rw = w.raw.get((key, p.atoms.get(key, val0))) or w.raw.get((key, val0))
+            if rw and rw[0][0] == "call" and rw[0][1] and rw[0][1].get("key") == unary_key:
+                return rw[1]
+        return None
+
+    def variant_on(p, e):
+        return p.atoms.get(("variant", pathsum.canon(strip_refs(e))))
+
+    def vec_elems_macro(p, v):
+        """elements of a `vec![..]` built in the dispatcher on path p."""
+        if not (v[0] == "call" and v[1] and v[1]["path"] == "std::boxed::box_assume_init_into_vec_unsafe" and len(v) > 4 and v[4] == b.key):
+            return None
+        found = None
+        for bi in p.blocks:
+            for st in b.blocks[bi]["stmts"]:
+                if st["k"] == "Assign" and st["place"]["proj"] and st["place"]["proj"][0]["k"] == "Deref" and st["rv"]["k"] == "Aggregate" and st["rv"].get("agg") == "Array":
+                    base = b.trace(st["place"]["local"])
+                    if expr_mentions(base, lambda x: x[0] == "call" and x[1] and x[1]["path"] == "std::boxed::Box::<T>::new_uninit"):
+                        if found is not None:
+                            return None
+                        found = [w.operand(o, p.env) for o in st["rv"]["ops"]]
+        return found
+
+    def form_of(p, v):
+        """('array-of', O) | ('single', O) | ('other', text) | None (not read)"""
+        v = strip_refs(v)
+        el = vec_elems_macro(p, v)
+        if el is not None:
+            return ("single", el[0]) if len(el) == 1 else ("other", "a vector of %d elements" % len(el))
+        if v[0] == "after":
+            muts = []
+            x = v
+            while x[0] == "after":
+                muts.append(x)
+                x = strip_refs(x[1])
+            if not (x[0] == "call" and x[1] and re.search(r"Vec::<T>::(new|with_capacity)$", x[1]["path"])):
+                return None
+            muts = [m for m in muts if not re.search(r"::(reserve|reserve_exact|shrink_to_fit)$", m[2])]
+            if len(muts) != 1:
+                return ("other", "an operand list filled by %d mutations (%s)" % (len(muts), [m[2] for m in muts]))
+            m = muts[0]
+            args = m[3] if len(m) > 3 else []
+            if re.search(r"Vec::<T, A>::push$", m[2]) and len(args) == 2:
+                return ("single", args[1])
+            if re.search(r"(::extend|::extend_from_slice|::append)$", m[2]) and len(args) == 2:
+                return view_of(args[1])
+            return ("other", "an operand list modified by %s" % m[2])
+        if v[0] == "call" and v[1] and re.search(r"Vec::<T>::(new|with_capacity)$", v[1]["path"]):
+            return ("other", "an empty operand list (%s)" % v[1]["path"])
+        return view_of(v)
+
+    def view_of(v):
+        x = strip_refs(v)
+        n = 0
+        while x[0] == "call" and x[1] and VEC_PLUMB.search(x[1]["path"]) and x[2] and n < 12:
+            x = strip_refs(x[2][0])
+            n += 1
+        if n == 0 and x[0] != "agg":
+            return None
+        if x[0] == "field" and x[2] == 0 and x[1][0] == "downcast" and x[1][2] == "Array":
+            return ("array-of", x[1][1])
+        if x[0] == "call" and x[1] and x[1]["path"] in ("std::slice::from_ref", "core::slice::from_ref") and x[2]:
+            return ("single", x[2][0])
+        if x[0] == "agg" and x[1].get("agg") == "Array":
+            return ("single", x[2][0]) if len(x[2]) == 1 else ("other", "an array of %d elements" % len(x[2]))
+        if x[0] == "call" and x[1] and x[1]["path"].endswith(("iter::once", "option::Option::<T>::into_iter")) and x[2]:
+            return ("single", x[2][0])
+        return None
+
+    def operand_ok(p, o):
+        """o is the object's value under the dispatched key."""
+        ke, _te = rd.lookup_on(p)
+        if ke is None:
+            return False
+        kk = strip_payload(ke)
+        src = strip_payload(o)
+        if src[0] == "call" and src[1] and src[1]["path"].startswith("serde_json::Map::<") and src[1]["path"].endswith("::get") and len(src[2]) == 2 and rd.is_object_payload(src[2][0]):
+            return strip_payload(src[2][1]) == kk
+        so = strip_refs(o)
+        if so[0] == "field" and so[2] == 1 and kk[0] == "field" and kk[2] == 0 and strip_refs(so[1]) == strip_refs(kk[1]):
+            t = strip_payload(so[1])       # the (key, value) entry both come from: the first one
+            return t[0] == "call" and t[1] and t[1]["path"].endswith("Iterator>::next") and bool(t[2]) and rd.iter_position(t[2][0]) == 0
+        return False
+
+    forms = set()
+    n_ok = 0
+    dom_bad, same_bad, opnd_bad, guard_bad, br_bad, other, unread = [], [], [], [], [], [], []
+    for p in rd.success:
+        inner = strip_refs(strip_refs(p.result)[2][0])
+        payload = strip_refs(inner[2][0]) if inner[2] else None
+        fields = [strip_refs(f_) for f_ in payload[2]] if payload and payload[0] == "agg" else []
+        checks = [ev for ev in p.events if ev[0] == "call" and ev[1] and ev[1].get("key") == chk_key]
+        passed = [ev for ev in checks if outcome(p, ("call", ev[1], ev[2], ev[3])) == "Ok"]
+        if not passed:
+            if checks and all(outcome(p, ("call", ev[1], ev[2], ev[3])) is None for ev in checks) and any(consumed(p, ev) for ev in checks):
+                unread.append(("K3.dominated", "the outcome of the length check is consumed in a way that is not read"))
+            else:
+                dom_bad.append(p)
+            continue
+        vec = None
+        for ev in passed:
+            le = strip_refs(ev[2][1]) if len(ev[2]) > 1 else None
+            if le is not None and le[0] == "call" and le[1] and le[1]["path"].endswith("::len") and le[2]:
+                cand = strip_refs(le[2][0])
+                if any(f_ == cand for f_ in fields):
+                    vec = cand
+        if vec is None:
+            same_bad.append(show_expr(strip_refs(passed[0][2][1]))[:100] if len(passed[0][2]) > 1 else "?")
+            continue
+        n_ok += 1
+        fm = form_of(p, vec)
+        if fm is None:
+            unread.append(("K4.other-form", "an operand list whose construction is not read: %s" % show_expr(vec)[:120]))
+            continue
+        if fm[0] == "other":
+            other.append(fm[1])
+            continue
+        kind, o = fm
+        if not operand_ok(p, o):
+            opnd_bad.append(show_expr(strip_refs(o))[:120])
+        if kind == "array-of":
+            forms.add("bracketed")
+            if variant_on(p, o) != "Array":
+                br_bad.append(p)
+        else:
+            forms.add("unbracketed")
+            u = unary_on(p)
+            if u is None:
+                unread.append(("K4.unary-guard", "no question to the unary-acceptance predicate is read on a path that wraps the operand"))
+            elif u is not True:
+                guard_bad.append(p)
+    for cl, msg in unread:
+        ctx.unread(cl, "paths of the dispatcher (%s)" % cfg, msg, where=where, fn=b.key)
+    ctx.check(not dom_bad, "K3.dominated", "Ok(Some) exit in %s" % cfg, "a parsed operation is returned on %d path(s) that do not pass the success outcome of the length check" % len(dom_bad), where=where, nontrivial=True, fn=b.key, sample={"success paths": len(rd.success)})
+    ctx.check(not same_bad, "K3.same-vector", "checked length is that of the returned operands (%s)" % cfg, "the length handed to the length check (%s) is not the length of the returned operand vector" % same_bad[:1], where=where, nontrivial=True, fn=b.key)
+    # the check itself: Err exactly when the predicate is false (decision cases of the check)
+    cb = facts.body(chk_key)
+    vkey = roles["valid"][0]
+    cw = x_ipaths.summarize(cb, x_ipaths.loop_free_local(facts, {vkey}), max_paths=200)
+    if cw.overflow or not cw.paths or any(q.truncated for q in cw.paths):
+        ctx.unread("K3.check-Ok", "predicate → outcome (%s)" % cfg, "the length check has loops", where=cb.where(), fn=cb.key)
+    else:
+        for q in cw.paths:
+            truth = None
+            args_ok = True
+            passed_ = []
+            for key, val0 in q.order:
+                rw = cw.raw.get((key, q.atoms.get(key, val0))) or cw.raw.get((key, val0))
+                if rw and rw[0][0] == "call" and rw[0][1] and rw[0][1].get("key") == vkey:
+                    truth = rw[1]
+                    args_ok = [strip_refs(a) for a in rw[0][2]] == [("arg", 1), ("arg", 2)]
+                    passed_ = [strip_refs(a) for a in rw[0][2]]
+            r = strip_refs(q.result)
+            var = r[1].get("variant") if r[0] == "agg" else None
+            if truth is None:
+                ctx.unread("K3.check-Ok", "predicate → outcome (%s)" % cfg, "a path of the length check does not ask the predicate", where=cb.where(), fn=cb.key)
+                continue
+            narrowed_ = [x[3] for x in passed_[1:2] if x[0] == "cast" and len(x) > 3 and strip_refs(x[2]) == ("arg", 2) and x[3] not in WIDE]
+            ctx.check(args_ok, "K3.check-args", "length check forwards (descriptor, length) (%s)" % cfg, "the length check does not pass its own descriptor and length to the predicate" + ((": the operand count is converted to %s first, so counts are checked modulo 2^bits — surplus operands are accepted and valid long lists rejected" % narrowed_[0]) if narrowed_ else (" (it passes %s)" % [show_expr(x)[:60] for x in passed_])), where=cb.where(), fn=cb.key)
+            want = "Ok" if truth else "Err"
+            ctx.check(var == want, "K3.check-%s" % want, "predicate %s → %s (%s)" % (truth, want, cfg), "when the length predicate is %s the length check returns %s instead of %s" % (truth, show_expr(r)[:80], want), where=cb.where(), nontrivial=True, fn=cb.key)
+    ctx.check(not opnd_bad, "K4.operand", "operand is the object's value under the dispatched key (%s)" % cfg, "the operand is not obtained as object[key] for the dispatched key: %s" % opnd_bad[:1], where=where, fn=b.key)
+    ctx.check(not br_bad, "K4.bracketed", "bracketed form = the array's elements in order (%s)" % cfg, "the array's elements are used as operands on a path where the operand is not known to be an array", where=where, fn=b.key, nontrivial=True)
+    ctx.check(not guard_bad, "K4.unary-guard", "unbracketed form only under unary acceptance (%s)" % cfg, "a non-array operand is wrapped on %d path(s) where the unary-acceptance test did not succeed" % len(guard_bad), where=where, fn=b.key, nontrivial=True)
+    for n, what in enumerate(sorted(set(other))):
+        ctx.fail("K4.other-form", "operand list #%d formed neither as [x] nor as the array's elements (%s)" % (n, cfg), "{op: x} must mean exactly {op: [x]}: the operand list is also built as %s" % what, where=where, fn=b.key)
+    if not unread:
+        ctx.check({"bracketed", "unbracketed"} <= forms, "K4.forms", "both operand forms present (%s)" % cfg, "operand forms found: %s" % sorted(forms), where=where, fn=b.key)
+    # rejection: a path on which unary acceptance was asked and denied, and the operand is not an array, ends in Err
+    rej_bad, rej_n = [], 0
+    for p in w.paths:
+        if p.truncated or unary_on(p) is not False:
+            continue
+        rej_n += 1
+        r = strip_refs(p.result) if p.result is not None else ("?",)
+        is_err = (r[0] == "agg" and r[1].get("variant") == "Err") or (r[0] == "call" and r[1] and r[1]["path"].endswith("::from_residual") and "Result" in r[1]["path"])
+        if not is_err and r[0] == "call" and r[1] and r[1].get("local"):
+            cb2 = facts.body(r[1]["key"])
+            rr = cb2.trace(0) if cb2 else ("?",)
+            is_err = rr[0] == "agg" and rr[1].get("variant") == "Err"
+        if not is_err and p not in rd.success:
+            rej_bad.append(show_expr(r)[:80])
+        elif not is_err:
+            # a success although unary acceptance was denied: only the bracketed form may do that (counted above)
+            pass
+    if rej_n:
+        ctx.check(not rej_bad, "K4.reject", "non-array operand of a non-unary operator is an error (%s)" % cfg, "the rejection path returns %s" % rej_bad[:1], where=where, fn=b.key)
+    else:
+        ctx.unread("K4.reject", "non-array operand of a non-unary operator is an error (%s)" % cfg, "no path on which unary acceptance is denied was read", where=where, fn=b.key)
+
+
+def k34_structural(ctx, facts, disp, roles, cfg):
+    """K3/K4 read off the statement structure of the dispatcher (dominating edges, the two-way join of the operand
+    vector).  Applicable when the dispatcher itself calls the unary predicate and the length check."""
+    if roles["unary"][1] is None or roles["check"][1] is None:
+        raise Inconclusive("the unary predicate / length check are not called by the dispatcher itself")
+    # ---- K3: dominance of the length check
+    b = disp.body
+    chk_key, chk_bi = roles["check"]
+    chk_term = b.blocks[chk_bi]["term"]
+    len_expr = strip_refs(b.trace(chk_term["args"][1]))
+    ok_len = len_expr[0] == "call" and len_expr[1] and len_expr[1]["path"] == "std::vec::Vec::<T, A>::len"
+    vec_of_len = strip_refs(len_expr[2][0]) if ok_len else None
+    # success edge of the check
+    succ_edges = []
+    for bi in b.reachable():
+        t = b.blocks[bi]["term"]
+        if t["k"] != "SwitchInt":
+            continue
+        e = b.trace(t["discr"])
+        if e[0] != "discr":
+            continue
+        x = strip_refs(e[1])
+        var = None
+        if x[0] == "call" and x[1] and x[1]["path"].endswith("as std::ops::Try>::branch"):
+            inner = strip_refs(x[2][0])
+            var = "Continue"
+        else:
+            inner = x
+            var = "Ok"
+        if inner[0] == "call" and inner[1] and inner[1].get("key") == chk_key:
+            r = switch_edges_for_variant(b, bi, var)
+            if r and r[1]:
+                succ_edges.append((bi, r[0]))
+    ctx.need(succ_edges, "success edge of the length check not found in the dispatcher")
+    for (sbi, ssi, inner) in disp.success:
+        dom = any(edge_dominates(b, u, v, sbi) for u, v in succ_edges)
+        ctx.check(dom, "K3.dominated", "Ok(Some) exit in %s" % cfg,
+                  "a parsed operation is returned on a path that does not pass the success edge of the length check",
+                  where=b.where(sbi, ssi), nontrivial=True, fn=b.key,
+                  sample={"exit_block": sbi, "check_edges": succ_edges})
+        # the returned vector is the vector whose length was checked
+        payload = inner[2][0] if inner[2] else None
+        fields = payload[2] if payload and payload[0] == "agg" else []
+        same = any(strip_refs(f) == vec_of_len for f in fields)
+        ctx.check(ok_len and same, "K3.same-vector", "checked length is that of the returned operands (%s)" % cfg,
+                  "the length handed to the length check (%s) is not the length of the returned operand vector" % show_expr(len_expr),
+                  where=b.where(chk_bi), nontrivial=True, fn=b.key)
+    # the check itself: Err exactly when the predicate is false
+    cb = facts.body(chk_key)
+    vkey, vbi = roles["valid"]
+    vt = cb.blocks[vbi]["term"]
+    args_ok = [strip_refs(cb.trace(a)) for a in vt["args"]] == [("arg", 1), ("arg", 2)]
+    passed_ = [strip_refs(cb.trace(a)) for a in vt["args"]]
+    narrowed_ = [x[3] for x in passed_[1:2] if x[0] == "cast" and len(x) > 3 and strip_refs(x[2]) == ("arg", 2) and x[3] not in WIDE]
+    ctx.check(args_ok, "K3.check-args", "length check forwards (descriptor, length) (%s)" % cfg,
+              "the length check does not pass its own descriptor and length to the predicate" + ((": the operand count is converted to %s first, so counts are checked modulo 2^bits — surplus operands are accepted and valid long lists rejected" % narrowed_[0]) if narrowed_ else (" (it passes %s)" % [show_expr(x)[:60] for x in passed_])), where=cb.where(vbi), fn=cb.key)
+    sw = [bi for bi in cb.reachable() if cb.blocks[bi]["term"]["k"] == "SwitchInt" and strip_refs(cb.trace(cb.blocks[bi]["term"]["discr"]))[0] == "call" and strip_refs(cb.trace(cb.blocks[bi]["term"]["discr"]))[1].get("key") == vkey]
+    ctx.need(len(sw) == 1, "length check does not branch exactly once on the predicate")
+    for want, variant in ((True, "Ok"), (False, "Err")):
+        tgt = bool_edge(cb, sw[0], want)
+        blocks = cb.reachable(tgt)
+        with cb.restricted(blocks):
+            r = cb.trace(0)
+        good = r[0] == "agg" and r[1].get("variant") == variant
+        ctx.check(good, "K3.check-%s" % variant, "predicate %s → %s (%s)" % (want, variant, cfg),
+                  "when the length predicate is %s the length check returns %s instead of %s" % (want, show_expr(r), variant),
+                  where=cb.where(sw[0]), nontrivial=True, fn=cb.key)
+
+    # ---- K4: unbracketed operand
+    # the operand: the Value (≠ the dispatcher's own value parameter) whose kind is switched on
+    op_sw = []
+    for bi in b.reachable():
+        t = b.blocks[bi]["term"]
+        if t["k"] != "SwitchInt":
+            continue
+        e = b.trace(t["discr"])
+        if e[0] == "discr" and e[2] == VALUE and strip_refs(e[1]) != ("arg", disp.value_arg):
+            op_sw.append((bi, strip_refs(e[1])))
+    ctx.need(len(op_sw) == 1, "the dispatcher does not switch exactly once on the kind of the operand")
+    obi, operand = op_sw[0]
+    src = strip_payload(operand)
+    from_obj = src[0] == "call" and src[1] and src[1]["path"].startswith("serde_json::Map::<") and src[1]["path"].endswith("::get") and disp._is_object_payload(src[2][0])
+    key_same = from_obj and strip_payload(src[2][1]) == strip_payload(disp.lookup_key_expr())
+    ctx.check(from_obj and key_same, "K4.operand", "operand is the object's value under the dispatched key (%s)" % cfg,
+              "the operand is not obtained as object[key] for the dispatched key: %s" % show_expr(src), where=b.where(obi), fn=b.key)
+    arr = switch_edges_for_variant(b, obi, "Array")
+    ctx.need(arr and arr[1], "no exact Array edge on the operand")
+    # definitions of the operand vector
+    defs = None
+    if vec_of_len and vec_of_len[0] == "phi":
+        defs = list(b.defs()[vec_of_len[1]])
+    elif vec_of_len and vec_of_len[0] == "field" and strip_refs(vec_of_len[1])[0] == "phi":
+        # the vector travels as one field of a tuple joined over the two forms: `let (args, flag) = match …`
+        tl, idx = strip_refs(vec_of_len[1])[1], vec_of_len[2]
+        defs = []
+        for d in b.defs()[tl]:
+            inner = None
+            if d[0] == "stmt" and d[3]["k"] == "Aggregate" and len(d[3]["ops"]) > idx:
+                o = d[3]["ops"][idx]
+                if o["k"] in ("Copy", "Move") and not o["place"]["proj"]:
+                    dd = b.defs().get(o["place"]["local"], [])
+                    if len(dd) == 1:
+                        inner = dd[0]
+            if inner is None:
+                defs = None
+                break
+            defs.append(inner)
+    built_in_place = None
+    if defs is None and vec_of_len and vec_of_len[0] == "call" and vec_of_len[1] and re.search(r"Vec::<T>::(new|with_capacity)$", vec_of_len[1]["path"]):
+        # `let mut args = Vec::new(); if array { args.extend(items) } else if unary { args.push(x) } else { return Err }`:
+        # the list is what the mutations put into it
+        vl = b.blocks[vec_of_len[3]]["term"]["dest"]["local"]
+        muts = []
+        for mbi, mt in b.calls():
+            mp = callee_path(mt) or ""
+            if not mt["args"]:
+                continue
+            tgt0 = strip_refs(b.trace(mt["args"][0]))
+            if not (tgt0[0] == "call" and len(tgt0) > 3 and tgt0[3] == vec_of_len[3]):
+                continue
+            if re.search(r"Vec::<T, A>::(len|is_empty|capacity|iter|as_slice|first|last|get)$|Deref>::deref$", mp):
+                continue
+            muts.append((mbi, mt, mp))
+        built_in_place = muts
+    if built_in_place is None:
+        ctx.need(defs is not None, "operand vector is not a two-way join (bracketed / unbracketed forms)")
+    ubi = roles["unary"][1]
+    usw = [bi for bi in b.reachable() if b.blocks[bi]["term"]["k"] == "SwitchInt" and strip_refs(b.trace(b.blocks[bi]["term"]["discr"]))[0] == "call" and strip_refs(b.trace(b.blocks[bi]["term"]["discr"]))[1].get("key") == roles["unary"][0]]
+    ctx.need(len(usw) == 1, "dispatcher does not branch exactly once on unary acceptance")
+    t_edge = (usw[0], bool_edge(b, usw[0], True))
+    f_tgt = bool_edge(b, usw[0], False)
+    seen_forms = set()
+    for n, (mbi, mt, mp) in enumerate(built_in_place or []):
+        if re.search(r"Vec::<T, A>::push$", mp) and len(mt["args"]) == 2 and strip_refs(b.trace(mt["args"][1])) == operand:
+            under = edge_dominates(b, t_edge[0], t_edge[1], mbi)
+            ctx.check(under, "K4.unary-guard", "unbracketed form only under unary acceptance (%s)" % cfg, "a non-array operand is pushed as the single operand without the unary-acceptance test", where=b.where(mbi), fn=b.key, nontrivial=True)
+            # pushed once: not inside a loop
+            ctx.check(not any(mbi in blocks for (_h, blocks, _s) in PN.loops_of(b)), "K4.wrap", "unbracketed operand x becomes exactly [x] (%s)" % cfg, "the operand is pushed inside a loop", where=b.where(mbi), fn=b.key, nontrivial=True)
+            seen_forms.add("unbracketed")
+            continue
+        if re.search(r"Vec::<T, A>::(extend|extend_from_slice)$|as std::iter::Extend<.*>>::extend$", mp) and len(mt["args"]) == 2:
+            src_ = strip_refs(b.trace(mt["args"][1]))
+            while src_[0] == "call" and src_[1] and re.search(r"(::iter|::into_iter|IntoIterator>::into_iter|Deref>::deref|::as_slice)$", src_[1]["path"]) and src_[2]:
+                src_ = strip_refs(src_[2][0])
+            if src_[0] == "field" and src_[1][0] == "downcast" and src_[1][2] == "Array" and strip_refs(src_[1][1]) == operand:
+                under = edge_dominates(b, obi, arr[0], mbi)
+                ctx.check(under, "K4.bracketed", "bracketed form = the array's elements in order (%s)" % cfg, "the array's elements are used as operands on a path where the operand is not known to be an array", where=b.where(mbi), fn=b.key, nontrivial=True)
+                seen_forms.add("bracketed")
+                continue
+        ctx.fail("K4.other-form", "operand list mutation #%d (%s)" % (n, cfg), "{op: x} must mean exactly {op: [x]}: the operand list is also modified by %s" % mp, where=b.where(mbi), fn=b.key)
+    if built_in_place is not None:
+        npush = sum(1 for (_b, mt_, mp_) in built_in_place if re.search(r"Vec::<T, A>::push$", mp_))
+        next_ = sum(1 for (_b, mt_, mp_) in built_in_place if re.search(r"(extend|extend_from_slice)$", mp_))
+        ctx.check(npush <= 1 and next_ <= 1, "K4.wrap", "the operand list is filled at one site per form (%s)" % cfg, "the operand list is pushed to at %d sites and extended at %d: {op: x} would not be exactly {op: [x]}" % (npush, next_), where=b.where(obi), fn=b.key, nontrivial=True)
+    for n, d in enumerate(defs or []):
+        dbi = d[1]
+        if dbi not in b.reachable():
+            continue
+        ex = b._trace_def(d, 0, frozenset())
+        x = strip_refs(ex)
+        # form 1: bracketed — collect(iter(array payload of the operand))
+        is_collect = x[0] == "call" and x[1] and x[1]["path"].endswith("::collect")
+        it = strip_refs(x[2][0]) if is_collect else None
+        is_br = bool(is_collect and it[0] == "call" and it[1] and it[1]["path"] == "core::slice::<impl [T]>::iter")
+        base = strip_refs(it[2][0]) if is_br else None
+        is_br = bool(is_br and base[0] == "field" and base[1][0] == "downcast" and base[1][2] == "Array" and strip_refs(base[1][1]) == operand)
+        elems = vec_macro_elems(b, d)
+        if is_br:
+            under = edge_dominates(b, obi, arr[0], dbi)
+            ctx.check(under, "K4.bracketed", "bracketed form = the array's elements in order (%s)" % cfg,
+                      "the array's elements are used as operands on a path where the operand is not known to be an array", where=b.where(dbi), fn=b.key, nontrivial=True)
+            seen_forms.add("bracketed")
+        elif elems is not None and len(elems) == 1 and strip_refs(elems[0]) == operand:
+            under = edge_dominates(b, t_edge[0], t_edge[1], dbi)
+            ctx.check(under, "K4.unary-guard", "unbracketed form only under unary acceptance (%s)" % cfg,
+                      "a non-array operand is wrapped without the unary-acceptance test", where=b.where(dbi), fn=b.key, nontrivial=True)
+            ctx.ok("K4.wrap", "unbracketed operand x becomes exactly [x] (%s)" % cfg, nontrivial=True, sample={"vector": [show_expr(e) for e in elems]})
+            seen_forms.add("unbracketed")
+        else:
+            what = ("a vector of %d element(s): %s" % (len(elems), [show_expr(e) for e in elems])) if elems is not None else show_expr(ex)
+            ctx.fail("K4.other-form", "operand list #%d formed neither as [x] nor as the array's elements (%s)" % (n, cfg),
+                     "{op: x} must mean exactly {op: [x]}: the operand list is also built as %s" % what, where=b.where(dbi), fn=b.key)
+    ctx.check({"bracketed", "unbracketed"} <= seen_forms, "K4.forms", "both operand forms present (%s)" % cfg, "operand forms found: %s" % sorted(seen_forms), where=b.where(obi), fn=b.key)
+    # rejection edge returns Err
+    blocks = b.reachable(f_tgt) - b.reachable(t_edge[1])
+    with b.restricted(blocks):
+        r = b.trace(0)
+    is_err = r[0] == "agg" and r[1].get("variant") == "Err"
+    if not is_err and r[0] == "call" and r[1] and r[1]["local"]:
+        cb2 = facts.body(r[1]["key"])
+        rr = cb2.trace(0) if cb2 else ("?",)
+        is_err = rr[0] == "agg" and rr[1].get("variant") == "Err"
+    ctx.check(is_err, "K4.reject", "non-array operand of a non-unary operator is an error (%s)" % cfg,
+              "the rejection edge returns %s" % show_expr(r), where=b.where(usw[0]), fn=b.key)
 
 def k5_error_discipline(ctx, facts, disp, cfg):
     """K5 — the arity error is not swallowed between the dispatcher and the entry point."""
